@@ -119,6 +119,9 @@ func (g *genCfg) pick(rng *rand.Rand, o, d *Obj) (Call, string) {
 	if g.fams["marshal"] {
 		menu = append(menu, "Marshal")
 	}
+	if g.fams["closures"] {
+		menu = append(menu, "SetValidityPolicy", "SetClosure", "SetClosure")
+	}
 	if g.fams["settings"] {
 		menu = append(menu, "SetID", "SetCategory", "SetDelimiter", "SetSymbol", "SetEncap")
 	}
@@ -197,6 +200,10 @@ func (g *genCfg) pick(rng *rand.Rand, o, d *Obj) (Call, string) {
 			return Call{"op": "SetOpt", "f": "ronly", "m": "toggle"}, "dst"
 		case "DstNnest":
 			return Call{"op": "SetOpt", "f": "nnest", "m": "toggle"}, "dst"
+		case "SetValidityPolicy":
+			return Call{"op": "SetValidityPolicy", "mode": []string{"none", "ok", "bad"}[rng.Intn(3)]}, "st"
+		case "SetClosure":
+			return Call{"op": []string{"SetPresentationPolicy", "SetEqualityPolicy", "SetUnmarshaler", "SetMarshaler"}[rng.Intn(4)], "on": rng.Intn(2) == 0}, "st"
 		case "Marshal":
 			if L+1 > g.maxLen {
 				continue
